@@ -501,3 +501,18 @@ package rhp
 //@ func (*RPCVerifySectorResponse).maxLen
 //@   prop C19
 //@   ensures @bounded 0 <= result && result <= 2^32
+
+// ------------------------------------------------------------ validation.go: request validation fails cleanly (C17)
+// A request comes from an untrusted peer: Validate must return an error, not panic, whatever
+// the request contains.
+//@ func (HostPrices).Validate
+//@   abstract
+
+//@ func (*RPCFormContractRequest).Validate
+//@   prop C17
+
+//@ func (*RPCRenewContractRequest).Validate
+//@   prop C17
+
+//@ func (*RPCRefreshContractRequest).Validate
+//@   prop C17
